@@ -1,10 +1,60 @@
-(* C04 — Log matching and AppendEntries consistency (handler level).
-   Statements only; proofs in Proofs/AppendProofs.v. *)
+(* C04 — Log matching across servers (cluster level, all runs) and AppendEntries consistency
+   (handler level).  Statements only; proofs in Proofs/AppendProofs.v and Proofs/ClusterLog*.v. *)
 From Coq Require Import List NArith Lia.
 From stdpp Require Import gmap.
-From RaftModel Require Import Base Config Node.
-From RaftProofs Require Import AppendProofs.
+From RaftModel Require Import Base Config Node NodeCodec Cluster ClusterLog.
+From RaftProofs Require Import AppendProofs ClusterProofs ClusterLogSpec ClusterLogMain ClusterLogExample
+  ClusterLogSnapSpec ClusterLogSnapMain ClusterLogSnapCex ClusterLogSnapExample.
 Open Scope N_scope.
+
+(* ================= LOG MATCHING OVER ALL RUNS OF THE CLUSTER (Model/ClusterLog.v) =================
+   For EVERY run of the cluster transition system — any number of servers starting from prefixes of
+   one history (linit_ok: what a bootstrapped cluster looks like; Proofs/ClusterLogSpec.v), elections
+   with vote requests delayed / duplicated / lost, stray vote requests, restarts, TimeoutNow, leaders
+   storing entries (dispatchLogs), AppendEntries built by the leader's setupAppendEntries for ANY
+   nextIndex and delivered late, repeatedly, out of order or never, heartbeats, a store failure or a
+   crash cut at any durable operation of any handler — in every reachable state:
+     - two logs that hold an entry of the same term at an index hold the SAME entry (term, type,
+       data) at every index up to it that both retain;
+     - within one log terms never decrease and every entry is stored under its own index.
+   Elections are held under configurations whose majorities intersect (one configuration, or the
+   two sides of one membership change).  NOT in this system: InstallSnapshot and user Restore
+   (with InstallSnapshot the statement is false on this code: known finding F3-ii). *)
+Theorem C04_log_matching_all_runs : forall cfgs g0 ls g,
+  quorums_intersect cfgs -> linit_ok g0 -> lrun false cfgs g0 ls = Some g ->
+  log_matching g /\ terms_monotone g.
+Proof. exact log_matching_no_snapshots. Qed.
+Print Assumptions C04_log_matching_all_runs.
+
+(* the same with takeSnapshot + compaction at any server at any time (and crash cuts inside them),
+   from states whose commit indices do not exceed a prefix c0 of the history every server holds
+   (linit_snap_ok; the commit index only moves through the requests in this system) *)
+Theorem C04_log_matching_all_runs_with_snapshots : forall cfgs g0 ls g,
+  quorums_intersect cfgs -> linit_snap_ok g0 -> lrun true cfgs g0 ls = Some g ->
+  log_matching g /\ terms_monotone g.
+Proof. exact log_matching_with_snapshots. Qed.
+Print Assumptions C04_log_matching_all_runs_with_snapshots.
+
+(* why the commit condition is there: with an initial commit index that no majority backs, the
+   snapshot-boundary acceptance of appendEntries lets two logs agree at an index and differ below
+   (five servers, found by the prover, checked by vm_compute).  The condition is what commitment
+   guarantees in the real system: nothing at or below a commit index is ever truncated. *)
+Theorem C04_log_matching_needs_backed_commit_index :
+  exists cfgs g0 ls g,
+    quorums_intersect cfgs /\ linit_ok g0 /\ lrun true cfgs g0 ls = Some g /\ ~ log_matching g.
+Proof. exact log_matching_with_snapshots_refuted. Qed.
+
+(* non-vacuity: every state the correspondence driver (component 101) starts from satisfies linit_ok;
+   a concrete start state satisfies linit_snap_ok and a run from it applies entries and takes a snapshot *)
+Theorem C04_driver_states_are_initial : forall n extras,
+  linit_ok (mkLG (mkG (map (fun p => mk_node (mk_cfg n) (N.of_nat (fst p)) (snd p)) (combine (seq 1 n) extras)) [] [] []) []).
+Proof. exact mk_nodes_linit. Qed.
+Example C04_snapshot_runs_exist :
+  linit_snap_ok snap_g0 /\
+  match lrun true [mk_cfg 3] snap_g0 snap_labels with Some g => took_snapshot g 2 | None => false end = true.
+Proof. split; [exact snap_init_ok | exact snapshots_do_happen]. Qed.
+
+(* ================= THE HANDLER (appendEntries) ================= *)
 
 (* For EVERY follower state whose cached last-log index bounds its store and EVERY request with
    consecutive entry indices (any terms, any overlap with the follower's log, any batch boundary,
